@@ -59,6 +59,7 @@ type qState struct {
 	marks    []qMark // state after every API call (for the crash oracle)
 
 	cbFlushed, cbACKed uint
+	ackedAtOpen        int // events ACKed before this queue instance was opened (callbacks count per instance)
 	cbPages            uint
 	wbuf               uint
 }
@@ -230,6 +231,7 @@ func (s *qState) checkCounters(what string) {
 	a, aerr := s.q.Active()
 	verifAssert(aerr == nil, what+": Active succeeds")
 	verifAssert(int(a) == s.flushed-s.acked, what+": Active == flushed - ACKed")
+	verifAssert(int(s.cbACKed) == s.acked-s.ackedAtOpen, what+": the ACKed callback reported exactly the events of the successful ACKs")
 }
 
 // reopen closes queue and file and opens the disk image again.
@@ -436,6 +438,7 @@ func VerifQueueCrash() {
 		rec = next
 	}
 	s2.flushed, s2.acked = rec.flushed, rec.acked
+	s2.ackedAtOpen = rec.acked - int(s2.cbACKed)
 	s2.events = all[:rec.flushed]
 	_ = nEvBefore
 	s2.read, s2.readMark = s2.acked, s2.acked
@@ -866,5 +869,77 @@ func VerifQueueEmptyEvent() {
 	s.r.Done()
 	s.ack(3)
 	s.checkCounters("after the ACK")
+	verifReach("end")
+}
+
+// VerifQueueAckFullFile (C12): the queue shares its file with other data that
+// uses up every free data page and then every free meta page.  The writer
+// reports the full file and keeps its event; reading and ACK still succeed on
+// the completely full file (the clean-up transaction may use the overflow
+// area); the space the ACK frees lets the buffered event be flushed.
+func VerifQueueAckFullFile() {
+	s := newQ(64, 0)
+	nEv := 9 + 4*verifChoose(2)
+	for e := 0; e < nEv; e++ {
+		verifAssert(s.appendEvent(400, 1), "append succeeds")
+	}
+	verifAssert(s.flush(), "Flush succeeds")
+	// foreign data: one page per transaction until the file is full
+	f := s.f
+	var foreign []txfile.PageID
+	for k := 0; k < 128; k++ {
+		tx, err := f.Begin()
+		verifAssert(err == nil, "Begin succeeds")
+		p, aerr := tx.Alloc()
+		if aerr == nil {
+			aerr = p.SetBytes(make([]byte, qPageSize))
+		}
+		if aerr == nil {
+			aerr = tx.Commit()
+		}
+		tx.Close()
+		if aerr != nil {
+			break
+		}
+		foreign = append(foreign, p.ID())
+	}
+	verifAssert(len(foreign) > 0 && len(foreign) < 64, "the foreign data filled the file")
+	// updates of the foreign pages consume the meta area
+	updated := 0
+	for _, id := range foreign {
+		tx, err := f.Begin()
+		verifAssert(err == nil, "Begin succeeds")
+		p, perr := tx.Page(id)
+		if perr == nil {
+			perr = p.SetBytes(make([]byte, qPageSize))
+		}
+		if perr == nil {
+			perr = tx.Commit()
+		}
+		tx.Close()
+		if perr != nil {
+			break
+		}
+		updated++
+	}
+	verifAssume(updated < len(foreign)) // the meta area ran out of pages
+	s.sync()
+	s.checkCounters("full shared file")
+	// the writer reports the full file and keeps the event
+	late := s.appendEvent(400, 1)
+	if late {
+		late = s.flush()
+	}
+	verifAssert(!late, "the flush fails, the file is full")
+	s.checkCounters("after the failed flush")
+	// the consumer keeps up: read and ACK succeed on the full file
+	for s.read < s.flushed {
+		s.readEvents(4, 4096)
+	}
+	s.ack(s.read - s.acked)
+	s.checkCounters("after the ACK on the full file")
+	verifAssert(s.flush(), "after space was freed, Flush succeeds")
+	s.drain(4096)
+	verifAssert(s.read == len(s.events), "every event was delivered exactly once, in order")
 	verifReach("end")
 }
